@@ -92,13 +92,18 @@ func verifLiteralContent(name string, n int, ascii bool) string {
 // (strconv.Quote, as XText.Describe does) is scanned by the template scanner
 // as exactly one expression, is one TEXT token for the lexer rule, and the
 // visitor evaluates it back to s.
-// cover: plain, has-quote, has-backslash, trailing-backslash
+// cover: plain, has-quote, has-backslash, trailing-backslash, long
 func VerifC12_QuoteAlone() {
 	n := 3
 	if zzverif.Thorough() {
 		n = 4
 	}
 	s := verifLiteralContent("s", n, !zzverif.Thorough())
+	if zzverif.Choice("long-literal", 2) == 1 {
+		// a long text with the arbitrary bytes at its end (126 .. 126+n characters)
+		s = strings.Repeat("x", 126) + s
+		zzverif.Cover("long")
+	}
 	lit := types.NewXText(s).Describe()
 	if strings.IndexByte(s, '"') >= 0 {
 		zzverif.Cover("has-quote")
